@@ -55,6 +55,32 @@ MUTATIONS = [
     ("tlexport/session.py", "            if (self.client_packet_buffer[i].seq + len(self.client_packet_buffer[i].tls_data)) % 2 ** 32 != \\\n", "            if (self.client_packet_buffer[i].seq + len(self.client_packet_buffer[i].tls_data)) != \\\n", "extract_client_buf: contiguity without wrap"),
     ("tlexport/quic/quic_session.py", "    QuicPacketType.RTT_O: (QuicPacketType.RTT_1, QuicPacketType.RTT_O),", "    QuicPacketType.RTT_O: (QuicPacketType.RTT_O,),", "PACKET_TYPE_MAP: 0-RTT in a space of its own"),
     ("tlexport/quic/quic_session.py", "        self.packet_number_client = {(QuicPacketType.INITIAL,): 0, (QuicPacketType.HANDSHAKE,): 0,", "        self.packet_number_client = {(QuicPacketType.INITIAL,): 0, (QuicPacketType.HANDSHAKE,): 1,", "set_packet_number_spaces: a space starts at 1"),
+    ("tlexport/quic/quic_frame.py", "            if payload[0] in k:\n                key = k\n", "            if payload[0] in k and key == 0xff:\n                key = k\n", "parse_frames: first matching key wins"),
+    ("tlexport/quic/quic_frame.py", "        payload = payload[frame_length:]", "        payload = payload[frame_length + 1:]", "parse_frames: skips a byte after each frame"),
+    ("tlexport/quic/quic_frame.py", "    (0x1c, 0x1d): ConnectionCloseFrame,", "    (0x1c,): ConnectionCloseFrame,", "frame_type: 0x1d no longer a CONNECTION_CLOSE"),
+    ("tlexport/quic/quic_frame.py", "            if byte != 0:\n                self.length = i\n", "            if byte != 0:\n                self.length = i + 1\n", "PaddingFrame: swallows the next frame's type byte"),
+    ("tlexport/quic/quic_frame.py", "        self.length += self.crypto_length\n", "        self.length += self.crypto_length + 1\n", "CryptoFrame: one byte too long"),
+    ("tlexport/quic/quic_frame.py", "        self.crypto = payload[index: self.length]", "        self.crypto = payload[index + 1: self.length]", "CryptoFrame: data starts one byte late"),
+    ("tlexport/quic/quic_frame.py", "        self.off = bool((self.frame_type >> 2) & 1)", "        self.off = bool((self.frame_type >> 1) & 1)", "StreamFrame: OFF bit read from the LEN bit"),
+    ("tlexport/quic/quic_frame.py", "            self.data_length = len(payload) - index\n", "            self.data_length = len(payload)\n", "StreamFrame: data_length without LEN counts the header"),
+    ("tlexport/quic/quic_frame.py", "        for i in range(0, self.range_count):", "        for i in range(0, self.range_count + 1):", "AckFrame: one range too many"),
+    ("tlexport/quic/quic_frame.py", "        if self.frame_type == 0x03:\n", "        if self.frame_type == 0x02:\n", "AckFrame: ECN counts on the wrong type"),
+    ("tlexport/quic/quic_frame.py", "        self.stateless_reset_token = payload[self.length: self.length + 16]\n        self.length += 16", "        self.stateless_reset_token = payload[self.length: self.length + 16]\n        self.length += 8", "NewConnectionIdFrame: 8-byte token accounted"),
+    ("tlexport/quic/quic_frame.py", "        if self.frame_type == 0x1c:\n", "        if self.frame_type == 0x1d:\n", "ConnectionCloseFrame: frame type field on the application variant"),
+    ("tlexport/quic/quic_frame.py", "        self.len_bit = (payload[0] & 1) == 1", "        self.len_bit = (payload[0] & 1) == 0", "DatagramFrame: LEN bit inverted"),
+    ("tlexport/quic/quic_frame.py", "class PingFrame(Frame):\n    frame_type = 0x01\n    length = 1", "class PingFrame(Frame):\n    frame_type = 0x01\n    length = 2", "PingFrame: class attribute length 2"),
+    ("tlexport/quic/quic_frame.py", "        self.data = payload[1 + self.length: 1 + self.length + self.frame_length]\n\n        self.length = self.length + self.frame_length", "        self.data = payload[1 + self.length: 1 + self.length + self.frame_length]\n\n        self.length = self.length + self.frame_length + 1", "GenericFrame: one byte too long"),
+    ("tlexport/checksums.py", "    while checksum > 0xFFFF:", "    while checksum > 0x10000:", "ones_complement_checksum: fold stops at 0x10000"),
+    ("tlexport/checksums.py", "        checksum = first + last\n", "        checksum = last\n", "ones_complement_checksum: carry dropped"),
+    ("tlexport/checksums.py", "    if len(checksum_arr) % 2 != 0:\n        checksum_arr.extend(b'\\x00')", "    if len(checksum_arr) % 2 != 0:\n        checksum_arr.extend(b'\\xff')", "ones_complement_checksum: padded with 0xff"),
+    ("tlexport/checksums.py", "        out_arr[i] = ~out_arr[i] + 256", "        out_arr[i] = ~out_arr[i] + 255", "ones_complement_checksum: complement off by one"),
+    ("tlexport/checksums.py", "    udp_data[6:8] = bytearray(b\"\\x00\\x00\")", "    udp_data[4:6] = bytearray(b\"\\x00\\x00\")", "calculate_checksum_udp: wrong field zeroed"),
+    ("tlexport/checksums.py", "    if calculated_checksum == b'\\x00\\x00':\n        calculated_checksum = bytearray(b'\\xff\\xff')", "    if calculated_checksum == b'\\x00\\x00':\n        calculated_checksum = bytearray(b'\\x00\\x00')", "calculate_checksum_udp: RFC 768 zero rule lost"),
+    ("tlexport/checksums.py", "    if calculated_checksum == b'\\x00\\x00' and packet_checksum == b'\\xff\\xff':\n        return True", "    if calculated_checksum == b'\\x00\\x00' and packet_checksum == b'\\xff\\xff':\n        return False", "calculate_checksum_tcp: the two zeros no longer match"),
+    ("tlexport/checksums.py", "    tcp_data[16:18] = bytearray(b'\\x00\\x00')", "    tcp_data[16:18] = bytearray(b'\\x00')", "calculate_checksum_tcp: field replaced by one byte"),
+    ("tlexport/cipher_suite_parser.py", "            if part == \"TagLength\":", "            if part == \"KeyLength\":", "split_cipher_suite: default tag length under the wrong part"),
+    ("tlexport/cipher_suite_parser.py", "        elif \"CCM\" in suite_string:", "        elif \"CCM_8\" in suite_string:", "split_cipher_suite: only CCM_8 suites become AESCCM"),
+    ("tlexport/cipher_suite_parser.py", "        \"AES_256\": 32,", "        \"AES_256\": 24,", "cipher_suite_parts: AES_256 key length 24"),
     ("tlexport/main.py", "if ((int(packet.tls_data[0]) & 0x40) >> 6) == 1 or args.greasy:", "if ((int(packet.tls_data[0]) & 0x80) >> 7) == 1 or args.greasy:", "run: fixed bit is bit 7"),
     ("tlexport/main.py", "                if len(cid) > 0 and cid == packet_payload[1:1 + len(cid)]:", "                if cid == packet_payload[1:1 + len(cid)]:", "handle_quic_packet: empty CID matches"),
     ("tlexport/main.py", "                    candidates = session.server_cids\n", "                    candidates = session.client_cids\n", "handle_quic_packet: sender-side CIDs"),
@@ -65,6 +91,13 @@ MUTATIONS = [
 
 # behaviour-preserving rewrites: (file, [(old, new)…], what)
 REWRITES = [
+    ("tlexport/cipher_suite_parser.py", [("        if not added_part:", "        if added_part == 0:")], "split_cipher_suite: `not added_part` written `added_part == 0`"),
+    ("tlexport/checksums.py", [("        first = checksum >> 16\n        last = checksum & 0xFFFF\n        checksum = first + last",
+                                "        checksum = (checksum & 0xFFFF) + (checksum >> 16)")], "ones_complement_checksum: fold in one line, operands swapped"),
+    ("tlexport/quic/quic_frame.py", [("        index = self.length\n\n        self.length += self.crypto_length\n        self.crypto = payload[index: self.length]",
+                                      "        index = self.length\n        end = index + self.crypto_length\n        self.crypto = payload[index: end]\n        self.length = end")],
+     "CryptoFrame: the end of the data computed first"),
+    ("tlexport/quic/quic_frame.py", [("    while len(payload) != 0:", "    while not len(payload) == 0:")], "parse_frames: loop test spelled with `not … ==`"),
     ("tlexport/quic/quic_session.py", [("            if out_pkn > self.packet_number_client[PACKET_TYPE_MAP[quic_packet.packet_type]]:\n", "            if out_pkn >= self.packet_number_client[PACKET_TYPE_MAP[quic_packet.packet_type]]:\n")],
      "set_largest_packet_number: `>=` for `>` (storing an equal number changes nothing)"),
     ("tlexport/quic/quic_session.py", [(r"\blargest_pkn\b", "largest", "re")], "get_full_packet_number: local renamed"),
@@ -85,13 +118,19 @@ REWRITES = [
 def group_of(what):
     """the group(s) whose theorems a mutation/rewrite labelled `what` concerns"""
     fn = what.split(":")[0]
-    table = {"get_header_type": ["QuicDissect"], "get_packet_type": ["QuicDissect"], "decode_variable_length_int": ["Varint"],
-             "get_variable_length_int_length": ["Varint"], "get_full_packet_number": ["Pn"], "set_largest_packet_number": ["Pn"], "check_key_epoch": ["QuicSess"],
+    table = {"get_header_type": ["QuicDissect"], "get_packet_type": ["QuicDissect"], "decode_variable_length_int": ["Varint", "Frames"],
+             "get_variable_length_int_length": ["Varint", "Frames"], "get_full_packet_number": ["Pn"], "set_largest_packet_number": ["Pn"], "check_key_epoch": ["QuicSess"],
              "packet_isserver": ["QuicSess"], "matches_session_dgram": ["QuicSess"], "handle_alert": ["TlsSess"],
              "handle_tls_client_hello": ["TlsSess"], "server hello": ["TlsSess"], "set_client_and_server_ports": ["Ports"],
              "matches_session": ["Demux"], "run": ["Demux"], "OutputBuilder": ["Ports"], "QUICOutputbuilder": ["Ports"],
              "Session.handle_packet": ["Reasm"], "extract_server_buf": ["Reasm"], "extract_client_buf": ["Reasm"],
              "PACKET_TYPE_MAP": ["Pn"], "set_packet_number_spaces": ["Pn"]}
+    if fn in ("split_cipher_suite", "cipher_suite_parts", "cipher_suites"):
+        return ["Suites"]
+    if fn in ("ones_complement_checksum", "calculate_checksum_udp", "calculate_checksum_tcp"):
+        return ["Checksum"]
+    if fn in ("parse_frames", "frame_type") or fn.endswith("Frame"):
+        return ["Frames"]
     if fn == "handle_quic_packet":
         return ["QuicDissect"] if "long header read" in what else ["Demux"]
     return table[fn]
@@ -135,6 +174,9 @@ def build_props(root):
         if not failed:
             det = [l for l in out.splitlines() if "error" in l][:3]
             failed.add("?")
+    for g, deps in translate.GROUP_DEPS.items():
+        if failed & set(deps):
+            failed.add(g)                                     # its dependency does not build: neither does it
     return st, det, failed
 
 
